@@ -14,13 +14,22 @@ EXTENDS Phout, Json
 MaxInt == 2147483647
 Times == {<<1000000000, 0>>, <<1700000000, 7>>, <<1700000001, 45>>, <<1999999999, 100>>, <<MaxInt, 999>>}
 Tags  == {"", "a", "case one", "a|b", "x#y"}
+\* tags that carry a column / line delimiter, as atoms (Phout!TagText): every delimiter alone, leading, trailing, inside,
+\* two in a row, all three
+DelimTags == {<<"<TAB>">>, <<"a", "<TAB>", "b">>, <<"<LF>", "b">>, <<"a", "<CR>">>, <<"a", "<CR>", "<LF>">>,
+              <<"x", "<TAB>", "y", "<LF>", "z", "<CR>", "w">>}
 IdModes == {<<FALSE, 0>>, <<TRUE, 0>>, <<TRUE, 5>>, <<TRUE, MaxInt>>}
 Hot == {-1, MaxInt, -MaxInt}
 FieldVecs == {[i \in 1..NFields |-> 0]} \cup
              {[i \in 1..NFields |-> IF i = p THEN v ELSE 10 + i] : p \in 1..NFields, v \in Hot}
 
-CaseSet == {[s |-> [g |-> 1, i |-> 1, sec |-> t[1], ms |-> t[2], tag |-> tg, id |-> m[2], f |-> fv], ids |-> m[1]] :
+\* delimiter tags do not interact with the numeric columns: two field vectors suffice for them
+CaseSet == {[s |-> [g |-> 1, i |-> 1, sec |-> t[1], ms |-> t[2], tag |-> tg, tagp |-> <<>>, id |-> m[2], f |-> fv], ids |-> m[1]] :
               t \in Times, tg \in Tags, m \in IdModes, fv \in FieldVecs}
+           \cup
+           {[s |-> [g |-> 1, i |-> 1, sec |-> t[1], ms |-> t[2], tag |-> "", tagp |-> tp, id |-> m[2], f |-> fv], ids |-> m[1]] :
+              t \in Times, tp \in DelimTags, m \in IdModes,
+              fv \in {[i \in 1..NFields |-> 0], [i \in 1..NFields |-> IF i = 1 THEN -1 ELSE 10 + i]}}
 \* every case is one initial state; the invariant Export prints it with the expected columns
 VARIABLE c
 Init == c \in CaseSet
